@@ -251,6 +251,9 @@ pub struct Sim {
     pub api_errors: Vec<(usize, String)>,
     /// yields whose URI carries no known tag
     pub untagged_yields: Vec<String>,
+    /// coverage: calls of `enqueue_responses` and the largest batch handed to it
+    pub batches: usize,
+    pub batch_max: usize,
     pub shutdown_seen: u64,
     /// max ticks seen in one requests() call
     pub max_ticks: u64,
@@ -347,6 +350,8 @@ impl Sim {
             limit: 51200,
             api_errors: Vec::new(),
             untagged_yields: Vec::new(),
+            batches: 0,
+            batch_max: 0,
             shutdown_seen: 0,
             max_ticks: 0,
             fd_scan_limit: 96,
@@ -573,6 +578,35 @@ impl Sim {
         readable_now(self.epfd)
     }
 
+    /// "Quiet with deliverable output": the epoll descriptor is not readable although an open
+    /// connection has unsent output AND its socket accepts writes right now (a caller that only polls
+    /// on readiness would block with work outstanding; nothing the client has to do first).
+    /// Both observations use the kernel's own predicates, nothing runs in between.
+    pub fn quiet_with_deliverable_output(&self) -> Option<String> {
+        if self.ready() {
+            return None;
+        }
+        for c in self.server.verif_probe() {
+            let pending = c.connection.response_queue > 0 || c.connection.response_buffer.is_some();
+            if !pending || c.state == 2 {
+                continue;
+            }
+            let mut pfd = libc::pollfd { fd: c.fd, events: libc::POLLOUT, revents: 0 };
+            // SAFETY: one valid pollfd, zero timeout.
+            let n = unsafe { libc::poll(&mut pfd, 1, 0) };
+            if n == 1 && pfd.revents & libc::POLLOUT != 0 && pfd.revents & (libc::POLLHUP | libc::POLLERR) == 0 {
+                return Some(format!(
+                    "the epoll descriptor is not readable, yet connection {} (state {}) has {} queued response(s){} and its socket is writable",
+                    c.fd,
+                    c.state,
+                    c.connection.response_queue,
+                    if c.connection.response_buffer.is_some() { " plus a partly written one" } else { "" }
+                ));
+            }
+        }
+        None
+    }
+
     /// One gated call of requests(): never called when the epoll descriptor is not readable.
     pub fn poll(&mut self) -> PollOut {
         let r = self.poll_inner();
@@ -653,6 +687,49 @@ impl Sim {
             }
             Ok(Err(e)) => {
                 self.api_errors.push((self.step, format!("respond() returned Err({:?})", e)));
+                false
+            }
+            Ok(Ok(())) => true,
+        }
+    }
+
+    /// The application answers every outstanding request with ONE call of `enqueue_responses`;
+    /// `order[k]` is the index (into `outstanding`) of the k-th response of the batch.
+    pub fn respond_batch(&mut self, order: &[usize], size: usize) -> bool {
+        self.step += 1;
+        let mut taken: Vec<Option<Outstanding>> = std::mem::take(&mut self.outstanding).into_iter().map(Some).collect();
+        let mut batch = Vec::new();
+        for &i in order {
+            let o = match taken[i].take() {
+                Some(o) => o,
+                None => continue,
+            };
+            let mut body = format!("{}|", o.tag).into_bytes();
+            while body.len() < size {
+                body.push(b'r');
+            }
+            let blen = body.len();
+            batch.push(o.sreq.process(|req| {
+                let mut r = Response::new(req.http_version(), StatusCode::OK);
+                r.set_body(Body::new(body.clone()));
+                r
+            }));
+            if let Some(gi) = o.gen_idx {
+                self.gens[gi].supplied.push((o.tag.clone(), blen));
+                self.gens[gi].supplied_steps.push(self.step);
+            }
+        }
+        // anything the permutation did not name stays outstanding
+        self.outstanding = taken.into_iter().flatten().collect();
+        self.batches += 1;
+        self.batch_max = self.batch_max.max(batch.len());
+        match guarded(|| self.server.enqueue_responses(batch)) {
+            Err(p) => {
+                self.api_errors.push((self.step, format!("enqueue_responses() panicked: {}", p)));
+                false
+            }
+            Ok(Err(e)) => {
+                self.api_errors.push((self.step, format!("enqueue_responses() returned Err({:?})", e)));
                 false
             }
             Ok(Ok(())) => true,
